@@ -36,7 +36,7 @@ CLAIMED['C08'] = dict(
     text='Contract proof over the real bodies of packed_channel_reference / packed_dynamic_channel_reference (get, set_unsafe, '
          'set_from_reference, operator=), the proxy arithmetic of packed_channel_reference_base (set, ++, --, +=, -=, *=, /=), '
          'get_data/set_data/static_copy_bytes and the bit cursor (bit_range ++/--/bit_advance/bit_distance_to, '
-         'bit_aligned_pixel_iterator advance/distance_to): a write stores the value, reads back, changes no other bit of the '
+         'bit_aligned_pixel_iterator advance/distance_to) and at_c<K>(bit_aligned_pixel_reference) (the channel reference starts sum_k bits after the pixel and satisfies the precondition of the reference it constructs): a write stores the value, reads back, changes no other bit of the '
          'carrier and no neighbouring byte, for every carrier content; cursor moves are exact and invertible for buffers up to 2^40 bytes.',
     note=TRUST + 'Carrier/width instantiations are a finite list (8/16/32/64-bit carriers, widths 1..32); whole-pixel swap/fill/copy '
          'drivers (template recursion) are not extracted; bit_range accessors inlined by rule.',
@@ -91,10 +91,10 @@ CLAIMED['C20'] = dict(
     text='Contract proof with loop contracts (unbounded, |coordinates| <= 10^6) that bresenham_line_rasterizer writes exactly point_count() '
          'points, first = start, last = end, strictly monotone and 8-connected along the major axis up to the final step; that '
          'midpoint_circle_rasterizer (radius <= 4096) writes 8 points per step, exactly its step count, all inside the bounding box; that '
-         'apply_rasterizer writes exactly point_count() pixels, each emitted in the current call. Bounding box / one-pixel closeness of the '
-         'line and closeness / symmetry of the circle are bounded native stand-ins (all end-point pairs in a window on the real code), not proofs.',
-    note=TRUST + 'Known finding C20-line-overshoot (slope (|dy|+1)/(|dx|+1)) is carved out by its exact failing set. Trigonometric circle and '
-         'ellipse rasterizers are not covered. Output iterators / std::vector are ghost models.',
+         'apply_rasterizer writes exactly point_count() pixels, each emitted in the current call; that midpoint_ellipse_rasterizer::draw_curve writes only pixels inside the view and writes every one of the four reflections of a trajectory point that lies inside the view (any view shape, any one-based centre). Bounding box / one-pixel closeness of the '
+         'line, closeness / symmetry of the circle and the first-quadrant trajectory of the ellipse (bbox, start, connectivity, painted set) are bounded native stand-ins on the real code, not proofs.',
+    note=TRUST + 'Known finding C20-line-overshoot (slope (|dy|+1)/(|dx|+1)) is carved out by its exact failing set. Trigonometric circle, '
+         'obtain_trajectory of the ellipse (stand-in only) and ellipse closeness are not covered. Output iterators / std::vector are ghost models.',
     technique='function contracts + loop contracts (invariants, decreases) enforced by CBMC DFCC on extracted real bodies with a ghost emission monitor; bounded native exhaustive stand-ins for float-dependent clauses',
     design='4/C20')
 
@@ -102,7 +102,7 @@ CLAIMED['C09'] = dict(
     text='Contract proof for 8-bit pixels over the real bodies of rgb_to_luminance (integer path), gray->rgb, rgb->gray, rgb->cmyk, cmyk->rgb, '
          'cmyk->gray, <C1,rgba_t> and <rgba_t,C2>: luminance within one unit of 0.30r+0.59g+0.11b, monotone, (v,v,v)->v exactly; black->black and '
          'white->white between rgb and cmyk; rgb->cmyk->rgb within one level (256 partition cells over the black level, all rgb8 pixels); to-rgba '
-         'pairs channels BY COLOUR NAME for rgba/bgra/argb/abgr destinations and sets alpha to max; from-rgba is the alpha-premultiplied rgb. '
+         'pairs channels BY COLOUR NAME for rgba/bgra/argb/abgr destinations and sets alpha to max; from-rgba is the conversion of the alpha-premultiplied rgb (rgb and cmyk destinations; transparent -> cmyk black). '
          'Pixels are arrays in memory order with get_color indices measured on the real pixel types.',
     note=TRUST + '16-bit/float pixel instantiations, same-colour-space conversion (static_for_each), color_convert_deref_fn and copy_and_convert_pixels are not covered; '
          '8-bit channel_convert identity taken from C06.',
@@ -132,7 +132,7 @@ CLAIMED['C17'] = dict(
     text='Samplers only. Proof over the real bodies of iround/ifloor (float, double), sample(nearest_neighbor_sampler) and sample(bilinear_sampler) for every '
          'sample point |p| <= 10^6 and every view size up to 10^5 x 10^5 (incl. empty and 1-pixel-wide/high): a point reported outside leaves the result '
          'untouched; inside => 1, 2 or 4 source pixels are read, all INSIDE the source view, all among the pixels surrounding the point, every weight in '
-         '[0,1]; at integer coordinates the total weight is exactly 1; nearest reads the nearest pixel.',
+         '[0,1]; at integer coordinates the total weight is exactly 1; nearest reads the nearest pixel; detail::cast_channel_fn reproduces an integral accumulator exactly and stays inside the hull of the surrounding values (float/double accumulators, signed and unsigned 8/16/32-bit channels).',
     note=TRUST + 'Weights summing to 1 for arbitrary points is proved only in the thorough tier (float products); resample_pixels driver, resize_view identity, '
          'matrix3x2 algebra and lanczos scaling are not covered. Locator moves and pixel accumulation are the ghost ACCUM model.',
     technique='lemma harnesses with contract clauses over symbolic floats on extracted real bodies (CBMC, loop-free => complete), ghost accumulation monitor with ACCESS preconditions',
@@ -161,7 +161,7 @@ CLAIMED['C15'] = dict(
     text='Partial (index and boundary bookkeeping). Loop-contract proof of detail::correlate_rows_impl for all five boundary options (one cell per option) and of '
          'kernel left_size/right_size: for EVERY output pixel (ghost coordinate), width >= 0 incl. narrower than the kernel, kernel size <= 4096, any centre: the '
          'pixel is written at most once; under extend_* it is correlated; under output_zero / output_ignore it is correlated exactly when its window fits inside the row, '
-         'otherwise zeroed / left untouched; every buffer write, correlation window, source read and destination write is inside its range.',
+         'otherwise zeroed / left untouched; every buffer write, correlation window, source read and destination write is inside its range; a source row is read before any destination pixel of that row is written (in-place filtering as in detail::convolve_1d).',
     note=TRUST + 'The numerical identity dst(i) = sum_k src(i+k-c)*kernel(k), convolution-vs-correlation, column variants, 2-D convolution and fixed kernels are not covered. '
          'assign_pixels / fill_n / the correlator are ghost range operations.',
     technique='function contract with loop contract and ghost output pixel, enforced by CBMC DFCC on the extracted real body; partitioned over the boundary option',
